@@ -26,6 +26,7 @@ Section Laws.
   Variable name_ok : dname -> cert -> bool.
   Variable client_cert_ok : ca -> cert -> bool.
   Variable valid_name : dname -> bool.
+  Variable ca_usable : ca -> bool.
   Variable native_certs : list ca.
   Variable webpki_roots : list ca.
   Variable rc : @TlsConnector cert ca dname -> @server cert ca -> hs_client.
@@ -37,7 +38,7 @@ Section Laws.
   (* ---------------------------------------------------------------- TlsConnector::connect *)
   Lemma tls_connect_ok : forall t srv alpn,
     tls_connect rc t srv = ConnTls alpn ->
-    exists a, srv = STls a /\
+    exists a, srv = STls a /\ rc t srv = HsOk alpn /\
       chain_ok (tc_roots t) (a_cert a) = true /\ name_ok (tc_domain t) (a_cert a) = true /\
       (alpn = Some ALPN_H2 \/ tc_assume_http2 t = true).
   Proof.
@@ -57,63 +58,90 @@ Section Laws.
   Qed.
 
   (* ---------------------------------------------------------------- Connector::call *)
-  Theorem call_sent_implies_authenticated : forall e srv,
-    is_https (e_scheme e) = true ->
-    call_transmitted (connect_outcome rc e srv) = true ->
+  Theorem call_sent_implies_authenticated : forall f e srv,
+    f_tls f = true -> is_https (e_scheme e) = true ->
+    call_transmitted (connect_outcome rc f e srv) = true ->
     exists t a alpn,
-      e_tls e = Some t /\ srv = STls a /\ connect_outcome rc e srv = ConnTls alpn /\
+      e_tls e = Some t /\ srv = STls a /\ connect_outcome rc f e srv = ConnTls alpn /\
       chain_ok (tc_roots t) (a_cert a) = true /\ name_ok (tc_domain t) (a_cert a) = true /\
       (alpn = Some ALPN_H2 \/ tc_assume_http2 t = true).
   Proof.
-    intros e srv Hs Ht. unfold connect_outcome in *. rewrite Hs in *.
+    intros f e srv Hf Hs Ht. unfold connect_outcome in *. rewrite Hf, Hs in *. simpl in *.
     destruct (e_tls e) as [t|]; [|discriminate].
     destruct (tls_connect rc t srv) as [x| |alpn] eqn:E; [discriminate| |].
     - exfalso. now apply (tls_connect_never_plain t srv).
-    - destruct (tls_connect_ok _ _ _ E) as (a & -> & Hc & Hn & Hh).
+    - destruct (tls_connect_ok _ _ _ E) as (a & -> & _ & Hc & Hn & Hh).
       exists t, a, alpn. repeat split; auto.
   Qed.
 
-  Theorem https_without_tls_fails : forall e srv,
-    is_https (e_scheme e) = true -> e_tls e = None ->
-    connect_outcome rc e srv = ConnErr HttpsUriWithoutTlsSupport /\
-    call_transmitted (connect_outcome rc e srv) = false /\
-    request_reaches_handler rc ra e srv = false.
+  Lemma connect_failure_reaches_no_handler : forall f e srv x,
+    connect_outcome rc f e srv = ConnErr x -> request_reaches_handler rc ra f e srv = false.
   Proof.
-    intros e srv Hs Hn.
-    assert (E : connect_outcome rc e srv = ConnErr HttpsUriWithoutTlsSupport).
-    { unfold connect_outcome. now rewrite Hs, Hn. }
-    split; [exact E|]. split; [now rewrite E|].
-    unfold request_reaches_handler, server_accepts. destruct srv; rewrite E; reflexivity.
+    intros f e srv x E. unfold request_reaches_handler.
+    destruct (server_handshake rc ra f e srv); [reflexivity|].
+    destruct srv; rewrite E; reflexivity.
   Qed.
 
-  Theorem no_plaintext_fallback : forall e srv,
-    is_https (e_scheme e) = true -> connect_outcome rc e srv <> ConnPlain.
+  Theorem https_without_tls_fails : forall f e srv,
+    f_tls f = true -> is_https (e_scheme e) = true -> e_tls e = None ->
+    connect_outcome rc f e srv = ConnErr HttpsUriWithoutTlsSupport /\
+    call_transmitted (connect_outcome rc f e srv) = false /\
+    request_reaches_handler rc ra f e srv = false.
   Proof.
-    intros e srv Hs. unfold connect_outcome. rewrite Hs.
+    intros f e srv Hf Hs Hn.
+    assert (E : connect_outcome rc f e srv = ConnErr HttpsUriWithoutTlsSupport).
+    { unfold connect_outcome. now rewrite Hf, Hs, Hn. }
+    split; [exact E|]. split; [now rewrite E|].
+    now apply connect_failure_reaches_no_handler with (x := HttpsUriWithoutTlsSupport).
+  Qed.
+
+  (* needs the [_tls-any] build: see [build_without_tls_is_plaintext] *)
+  Theorem no_plaintext_fallback : forall f e srv,
+    f_tls f = true -> is_https (e_scheme e) = true -> connect_outcome rc f e srv <> ConnPlain.
+  Proof.
+    intros f e srv Hf Hs. unfold connect_outcome. rewrite Hf, Hs. simpl.
     destruct (e_tls e) as [t|]; [apply tls_connect_never_plain|discriminate].
   Qed.
 
-  Theorem connect_failure_reaches_no_handler : forall e srv x,
-    connect_outcome rc e srv = ConnErr x -> request_reaches_handler rc ra e srv = false.
+  (* the build assumption, stated: without any TLS feature the [is_https] branch is not
+     compiled and every endpoint, https included, is a plaintext connection *)
+  Theorem build_without_tls_is_plaintext : forall f e srv,
+    f_tls f = false -> connect_outcome rc f e srv = ConnPlain.
+  Proof. intros f e srv Hf. unfold connect_outcome. now rewrite Hf. Qed.
+
+  (* a handler needs BOTH: the listener yielded the connection, and a request was transmitted *)
+  Lemma reaches_needs_both : forall f e srv,
+    request_reaches_handler rc ra f e srv = true ->
+    call_transmitted (connect_outcome rc f e srv) = true /\
+    exists pc, server_handshake rc ra f e srv = SrvAccept pc.
   Proof.
-    intros e srv x E. unfold request_reaches_handler, server_accepts. destruct srv; rewrite E; reflexivity.
+    intros f e srv H. unfold request_reaches_handler in H.
+    destruct (server_handshake rc ra f e srv) as [|pc]; [discriminate|].
+    split; [|now exists pc].
+    destruct srv; destruct (connect_outcome rc f e _); try discriminate; reflexivity.
   Qed.
 
-  (* a handler only ever runs for a transmitted call *)
-  Lemma reaches_implies_transmitted : forall e srv,
-    request_reaches_handler rc ra e srv = true -> call_transmitted (connect_outcome rc e srv) = true.
-  Proof.
-    intros e srv H. destruct (connect_outcome rc e srv) eqn:E; try reflexivity.
-    now rewrite (connect_failure_reaches_no_handler _ _ _ E) in H.
-  Qed.
+  Lemma reaches_implies_transmitted : forall f e srv,
+    request_reaches_handler rc ra f e srv = true ->
+    call_transmitted (connect_outcome rc f e srv) = true.
+  Proof. intros f e srv H. now apply reaches_needs_both in H. Qed.
 
   (* an https endpoint never reaches the handler of a plaintext listener *)
-  Theorem https_never_served_in_plaintext : forall e,
-    is_https (e_scheme e) = true -> request_reaches_handler rc ra e SPlain = false.
+  Theorem https_never_served_in_plaintext : forall f e,
+    f_tls f = true -> is_https (e_scheme e) = true ->
+    request_reaches_handler rc ra f e SPlain = false.
   Proof.
-    intros e Hs. destruct (request_reaches_handler rc ra e SPlain) eqn:R; [|reflexivity].
-    destruct (call_sent_implies_authenticated e SPlain Hs (reaches_implies_transmitted _ _ R))
+    intros f e Hf Hs. destruct (request_reaches_handler rc ra f e SPlain) eqn:R; [|reflexivity].
+    destruct (call_sent_implies_authenticated f e SPlain Hf Hs (reaches_implies_transmitted _ _ _ R))
       as (t & a & alpn & _ & Hsrv & _). discriminate.
+  Qed.
+
+  (* a plaintext client is never served by a TLS listener *)
+  Theorem plaintext_client_not_served_by_tls_listener : forall f e a,
+    f_tls f && is_https (e_scheme e) = false ->
+    request_reaches_handler rc ra f e (STls a) = false.
+  Proof.
+    intros f e a H. unfold request_reaches_handler, server_handshake. now rewrite H.
   Qed.
 
   (* ---------------------------------------------------------------- configuration -> connector *)
@@ -156,6 +184,14 @@ Section Laws.
     exists t, d. repeat split; auto.
   Qed.
 
+  Lemma configured_roots_no_flags : forall f (c : @ClientTlsConfig cert ca dname),
+    c_with_native_roots c = false -> c_with_webpki_roots c = false ->
+    configured_roots native_certs webpki_roots f c = c_trust_anchors c ++ c_certs c.
+  Proof.
+    intros f c N W. unfold configured_roots. rewrite N, W.
+    now rewrite !andb_false_r.
+  Qed.
+
   Lemma configured_roots_no_features : forall f (c : @ClientTlsConfig cert ca dname),
     f_native_roots f = false -> f_webpki_roots f = false ->
     configured_roots native_certs webpki_roots f c = c_trust_anchors c ++ c_certs c.
@@ -188,7 +224,7 @@ Section Laws.
 
   (* ---------------------------------------------------------------- server configuration -> acceptor *)
   Lemma tls_acceptor_spec : forall (s : @ServerTlsConfig cert ca) a,
-    tls_acceptor s = AccOk a ->
+    tls_acceptor ca_usable s = AccOk a ->
     s_identity s = Some (a_cert a) /\ a_alpn a = [ALPN_H2] /\
     a_verifier a = match s_client_ca_root s with
                    | None => NoClientAuth
@@ -196,119 +232,199 @@ Section Laws.
                    end.
   Proof.
     intros s a H. unfold tls_acceptor in H.
-    destruct (s_identity s) as [id|]; [|discriminate]. injection H as <-. simpl.
-    repeat split. destruct (s_client_ca_root s); [|reflexivity].
-    now destruct (s_client_auth_optional s).
+    destruct (s_identity s) as [id|]; [|discriminate].
+    destruct (s_client_ca_root s) as [root|].
+    - destruct (ca_usable root); [|discriminate]. injection H as <-. simpl.
+      repeat split. now destruct (s_client_auth_optional s).
+    - injection H as <-. simpl. repeat split.
   Qed.
 
   Lemma tls_acceptor_panics_iff : forall (s : @ServerTlsConfig cert ca),
-    tls_acceptor s = AccPanic <-> s_identity s = None.
+    tls_acceptor ca_usable s = AccPanic <-> s_identity s = None.
   Proof.
-    intro s. unfold tls_acceptor. destruct (s_identity s); split; intro H; try discriminate; reflexivity.
+    intro s. unfold tls_acceptor. destruct (s_identity s); split; intro H; try discriminate; try reflexivity.
+    destruct (s_client_ca_root s) as [root|]; [destruct (ca_usable root)|]; discriminate.
+  Qed.
+
+  (* ---------------------------------------------------------------- the Server builder keeps the acceptor *)
+  Lemma server_build_app : forall l1 l2 (s : @Server cert ca),
+    server_build ca_usable s (l1 ++ l2) =
+    match server_build ca_usable s l1 with
+    | BuildOk s' => server_build ca_usable s' l2
+    | x => x
+    end.
+  Proof.
+    induction l1 as [|o l1 IH]; intros l2 s; simpl; [reflexivity|].
+    destruct o as [opt| |c]; try apply IH.
+    destruct (server_tls_config ca_usable s c); try reflexivity. apply IH.
+  Qed.
+
+  Lemma server_build_keeps_tls : forall ops (s : @Server cert ca),
+    Forall not_tls_op ops ->
+    exists s', server_build ca_usable s ops = BuildOk s' /\ sv_tls s' = sv_tls s.
+  Proof.
+    induction ops as [|o ops IH]; intros s H; simpl; [now exists s|].
+    inversion H as [|? ? Ho Hr]; subst.
+    destruct o as [opt| |c]; [| |contradiction].
+    - destruct (IH (server_set s opt) Hr) as (s' & E & T). now exists s'.
+    - destruct (IH (server_layer s) Hr) as (s' & E & T). now exists s'.
+  Qed.
+
+  (* tls_config, then any other builder calls (layer, timeout, ...), before or after: the
+     listener is the TLS listener of that configuration *)
+  Theorem builder_preserves_tls : forall before after (c : @ServerTlsConfig cert ca) a,
+    Forall not_tls_op before -> Forall not_tls_op after ->
+    tls_acceptor ca_usable c = AccOk a ->
+    exists sv, server_build ca_usable server_builder (before ++ OpTls c :: after) = BuildOk sv /\
+               server_listener sv = STls a.
+  Proof.
+    intros before after c a Hb Ha Hacc. rewrite server_build_app.
+    destruct (server_build_keeps_tls before server_builder Hb) as (s1 & E1 & _). rewrite E1.
+    simpl. unfold server_tls_config. rewrite Hacc.
+    destruct (server_build_keeps_tls after
+                {| sv_tls := Some a; sv_layers := sv_layers s1; sv_opts := sv_opts s1 |} Ha)
+      as (s2 & E2 & T2).
+    exists s2. split; [exact E2|]. unfold server_listener. now rewrite T2.
+  Qed.
+
+  (* without tls_config the listener is plaintext *)
+  Lemma builder_without_tls_is_plain : forall (ops : list (@builder_op cert ca)),
+    Forall not_tls_op ops ->
+    exists sv, server_build ca_usable server_builder ops = BuildOk sv /\ server_listener sv = SPlain.
+  Proof.
+    intros ops H. destruct (server_build_keeps_tls ops server_builder H) as (s & E & T).
+    exists s. split; [exact E|]. unfold server_listener. now rewrite T.
   Qed.
 
   (* ---------------------------------------------------------------- client authentication *)
-  Lemma reaches_tls_accepts : forall e a,
-    request_reaches_handler rc ra e (STls a) = true ->
-    exists pc, ra a (endpoint_identity e) = SrvAccept pc /\ peer_certs_exposed rc ra e (STls a) = pc.
+  Lemma reaches_tls_accepts : forall f e a,
+    request_reaches_handler rc ra f e (STls a) = true ->
+    exists pc, ra a (endpoint_identity e) = SrvAccept pc /\
+               peer_certs_exposed rc ra f e (STls a) = pc.
   Proof.
-    intros e a H. unfold request_reaches_handler, peer_certs_exposed, server_accepts in *.
-    destruct (connect_outcome rc e (STls a)); try discriminate.
-    destruct (ra a (endpoint_identity e)) as [|pc]; [discriminate|]. now exists pc.
+    intros f e a H. unfold peer_certs_exposed. rewrite H.
+    unfold request_reaches_handler in H. unfold server_handshake in *. unfold endpoint_identity.
+    destruct (f_tls f && is_https (e_scheme e)); [|discriminate].
+    destruct (e_tls e) as [t|]; [|discriminate].
+    destruct (rc t (STls a)); [discriminate|].
+    destruct (ra a (tc_identity t)) as [|pc]; [discriminate|]. now exists pc.
   Qed.
 
-  Theorem verifier_enforced : forall e a root allow,
+  Theorem verifier_enforced : forall f e a root allow,
     a_verifier a = WebPki root allow ->
-    request_reaches_handler rc ra e (STls a) = true ->
+    request_reaches_handler rc ra f e (STls a) = true ->
     (exists c, endpoint_identity e = Some c /\ client_cert_ok root c = true /\
-               peer_certs_exposed rc ra e (STls a) = Some c) \/
-    (allow = true /\ endpoint_identity e = None /\ peer_certs_exposed rc ra e (STls a) = None).
+               peer_certs_exposed rc ra f e (STls a) = Some c) \/
+    (allow = true /\ endpoint_identity e = None /\ peer_certs_exposed rc ra f e (STls a) = None).
   Proof.
-    intros e a root allow Hv H.
-    destruct (reaches_tls_accepts _ _ H) as (pc & Ha & Hp).
+    intros f e a root allow Hv H.
+    destruct (reaches_tls_accepts _ _ _ H) as (pc & Ha & Hp).
     pose proof (H_accept _ _ _ Ha) as L. rewrite Hv in L. rewrite Hp.
     destruct L as [(c & Hi & -> & Hok)|(-> & Hi & ->)]; [left; exists c|right]; auto.
   Qed.
 
-  Theorem client_auth_enforced : forall (s : @ServerTlsConfig cert ca) a root e,
-    tls_acceptor s = AccOk a -> s_client_ca_root s = Some root ->
-    request_reaches_handler rc ra e (STls a) = true ->
+  Theorem client_auth_enforced : forall f (s : @ServerTlsConfig cert ca) a root e,
+    tls_acceptor ca_usable s = AccOk a -> s_client_ca_root s = Some root ->
+    request_reaches_handler rc ra f e (STls a) = true ->
     (exists c, endpoint_identity e = Some c /\ client_cert_ok root c = true) \/
     (s_client_auth_optional s = true /\ endpoint_identity e = None).
   Proof.
-    intros s a root e Hacc Hroot H.
+    intros f s a root e Hacc Hroot H.
     destruct (tls_acceptor_spec _ _ Hacc) as (_ & _ & Hv). rewrite Hroot in Hv.
-    destruct (verifier_enforced _ _ _ _ Hv H) as [(c & Hi & Hok & _)|(Ho & Hi & _)];
+    destruct (verifier_enforced _ _ _ _ _ Hv H) as [(c & Hi & Hok & _)|(Ho & Hi & _)];
       [left; exists c|right]; auto.
   Qed.
 
+  (* the same through the builder: whatever else is called on the Server *)
+  Theorem built_server_enforces_client_auth : forall f before after c a root sv e,
+    Forall not_tls_op before -> Forall not_tls_op after ->
+    tls_acceptor ca_usable c = AccOk a -> s_client_ca_root c = Some root ->
+    server_build ca_usable server_builder (before ++ OpTls c :: after) = BuildOk sv ->
+    request_reaches_handler rc ra f e (server_listener sv) = true ->
+    f_tls f && is_https (e_scheme e) = true /\
+    ((exists ci, endpoint_identity e = Some ci /\ client_cert_ok root ci = true) \/
+     (s_client_auth_optional c = true /\ endpoint_identity e = None)).
+  Proof.
+    intros f before after c a root sv e Hb Ha Hacc Hroot Hbuild H.
+    destruct (builder_preserves_tls before after c a Hb Ha Hacc) as (sv' & E & L).
+    rewrite Hbuild in E. injection E as <-. rewrite L in H. split.
+    - destruct (f_tls f && is_https (e_scheme e)) eqn:G; [reflexivity|].
+      now rewrite (plaintext_client_not_served_by_tls_listener f e a G) in H.
+    - now apply (client_auth_enforced f c a root e).
+  Qed.
+
   (* optional client authentication does not let a certificate of another CA through *)
-  Theorem bad_client_cert_always_rejected : forall e a root allow c,
+  Theorem bad_client_cert_always_rejected : forall f e a root allow c,
     a_verifier a = WebPki root allow ->
     endpoint_identity e = Some c -> client_cert_ok root c = false ->
-    request_reaches_handler rc ra e (STls a) = false.
+    request_reaches_handler rc ra f e (STls a) = false.
   Proof.
-    intros e a root allow c Hv Hi Hbad.
-    destruct (request_reaches_handler rc ra e (STls a)) eqn:R; [|reflexivity].
-    destruct (verifier_enforced _ _ _ _ Hv R) as [(c' & Hi' & Hok & _)|(_ & Hi' & _)];
+    intros f e a root allow c Hv Hi Hbad.
+    destruct (request_reaches_handler rc ra f e (STls a)) eqn:R; [|reflexivity].
+    destruct (verifier_enforced _ _ _ _ _ Hv R) as [(c' & Hi' & Hok & _)|(_ & Hi' & _)];
       rewrite Hi in Hi'; [injection Hi' as <-; congruence|discriminate].
   Qed.
 
-  Theorem peer_certs_iff_presented : forall e a,
-    request_reaches_handler rc ra e (STls a) = true ->
-    forall c, peer_certs_exposed rc ra e (STls a) = Some c <->
+  Theorem peer_certs_iff_presented : forall f e a,
+    request_reaches_handler rc ra f e (STls a) = true ->
+    forall c, peer_certs_exposed rc ra f e (STls a) = Some c <->
               exists root allow, a_verifier a = WebPki root allow /\
                 endpoint_identity e = Some c /\ client_cert_ok root c = true.
   Proof.
-    intros e a H c. split.
+    intros f e a H c. split.
     - intro Hp. destruct (a_verifier a) as [|root allow] eqn:Hv.
-      + destruct (reaches_tls_accepts _ _ H) as (pc & Ha & Hpc).
+      + destruct (reaches_tls_accepts _ _ _ H) as (pc & Ha & Hpc).
         pose proof (H_accept _ _ _ Ha) as L. rewrite Hv in L. congruence.
-      + destruct (verifier_enforced _ _ _ _ Hv H) as [(c' & Hi & Hok & Hp')|(_ & _ & Hp')];
+      + destruct (verifier_enforced _ _ _ _ _ Hv H) as [(c' & Hi & Hok & Hp')|(_ & _ & Hp')];
           rewrite Hp in Hp'; [|discriminate].
         injection Hp' as <-. now exists root, allow.
     - intros (root & allow & Hv & Hi & Hok).
-      destruct (verifier_enforced _ _ _ _ Hv H) as [(c' & Hi' & _ & Hp')|(_ & Hi' & _)];
+      destruct (verifier_enforced _ _ _ _ _ Hv H) as [(c' & Hi' & _ & Hp')|(_ & Hi' & _)];
         rewrite Hi in Hi'; [|discriminate]. now injection Hi' as <-.
   Qed.
 
-  Lemma no_verifier_no_peer_certs : forall e a,
-    a_verifier a = NoClientAuth -> peer_certs_exposed rc ra e (STls a) = None.
+  Lemma no_verifier_no_peer_certs : forall f e a,
+    a_verifier a = NoClientAuth -> peer_certs_exposed rc ra f e (STls a) = None.
   Proof.
-    intros e a Hv. unfold peer_certs_exposed, server_accepts.
-    destruct (connect_outcome rc e (STls a)); try reflexivity.
-    destruct (ra a (endpoint_identity e)) as [|pc] eqn:Ha; [reflexivity|].
-    pose proof (H_accept _ _ _ Ha) as L. now rewrite Hv in L.
+    intros f e a Hv. destruct (request_reaches_handler rc ra f e (STls a)) eqn:R.
+    - destruct (reaches_tls_accepts _ _ _ R) as (pc & Ha & Hp). rewrite Hp.
+      pose proof (H_accept _ _ _ Ha) as L. now rewrite Hv in L.
+    - unfold peer_certs_exposed. now rewrite R.
   Qed.
 
+  (* no handler, no certificates *)
+  Lemma peer_certs_only_for_handlers : forall f e srv,
+    request_reaches_handler rc ra f e srv = false -> peer_certs_exposed rc ra f e srv = None.
+  Proof. intros f e srv H. unfold peer_certs_exposed. now rewrite H. Qed.
+
   (* Request::peer_certs *)
-  Lemma request_peer_certs_tcp : forall (pc : option cert), request_peer_certs true pc = pc.
-  Proof. reflexivity. Qed.
-  Lemma request_peer_certs_other_io : forall (pc : option cert), request_peer_certs false pc = None.
+  Lemma request_peer_certs_spec : forall (io_is_tcp : bool) (pc : option cert),
+    request_peer_certs io_is_tcp pc = if io_is_tcp then pc else None.
   Proof. reflexivity. Qed.
 
   (* ---------------------------------------------------------------- end to end, from the two configurations *)
   Theorem served_over_https_implies_all : forall f h (c : @ClientTlsConfig cert ca dname) e srv,
+    f_tls f = true ->
     endpoint_tls_config valid_name native_certs webpki_roots f (endpoint_from_uri Https h) c = inr e ->
-    request_reaches_handler rc ra e srv = true ->
+    request_reaches_handler rc ra f e srv = true ->
     exists a d alpn,
       srv = STls a /\ effective_domain c h = Some d /\
       chain_ok (configured_roots native_certs webpki_roots f c) (a_cert a) = true /\
       name_ok d (a_cert a) = true /\
-      connect_outcome rc e srv = ConnTls alpn /\
+      connect_outcome rc f e srv = ConnTls alpn /\
       (alpn = Some ALPN_H2 \/ c_assume_http2 c = true) /\
       match a_verifier a with
-      | NoClientAuth => peer_certs_exposed rc ra e srv = None
+      | NoClientAuth => peer_certs_exposed rc ra f e srv = None
       | WebPki root allow =>
           (exists ci, c_identity c = Some ci /\ client_cert_ok root ci = true /\
-                      peer_certs_exposed rc ra e srv = Some ci) \/
-          (allow = true /\ c_identity c = None /\ peer_certs_exposed rc ra e srv = None)
+                      peer_certs_exposed rc ra f e srv = Some ci) \/
+          (allow = true /\ c_identity c = None /\ peer_certs_exposed rc ra f e srv = None)
       end.
   Proof.
-    intros f h c e srv Hcfg H.
+    intros f h c e srv Hf Hcfg H.
     destruct (tls_config_wiring _ _ _ _ _ Hcfg) as (Hs & t & d & Ht & Hd & _ & Hdom & Hr & Hi & Has & _).
     assert (Hhttps : is_https (e_scheme e) = true) by now rewrite Hs.
-    destruct (call_sent_implies_authenticated e srv Hhttps (reaches_implies_transmitted _ _ H))
+    destruct (call_sent_implies_authenticated f e srv Hf Hhttps (reaches_implies_transmitted _ _ _ H))
       as (t' & a & alpn & Ht' & -> & Hc & Hch & Hn & Hh).
     rewrite Ht in Ht'. injection Ht' as <-.
     assert (Hid : endpoint_identity e = c_identity c).
@@ -329,8 +445,9 @@ Section ReferenceSound.
   Variable chain_ok : list ca -> cert -> bool.
   Variable name_ok : dname -> cert -> bool.
   Variable client_cert_ok : ca -> cert -> bool.
+  Variable anchor_named : list ca -> cert -> bool.
 
-  Lemma ref_connect_sound : connect_sound chain_ok name_ok (ref_connect chain_ok name_ok).
+  Lemma ref_connect_sound : connect_sound chain_ok name_ok (ref_connect chain_ok name_ok anchor_named).
   Proof.
     intros t srv alpn H. unfold ref_connect in H.
     destruct srv as [|a]; [discriminate|]. exists a. split; [reflexivity|].
@@ -403,9 +520,18 @@ Proof. apply ref_accept_sound. Qed.
 
 (* tonic's own acceptor against any rustls-like client: only h2 is ever selected *)
 Lemma tonic_server_selects_only_h2 : forall (s : @ServerTlsConfig certid caid) a offers p,
-  tls_acceptor s = AccOk a -> ref_negotiate offers (a_alpn a) = NegProto p -> p = ALPN_H2.
+  tls_acceptor t_ca_usable s = AccOk a -> ref_negotiate offers (a_alpn a) = NegProto p -> p = ALPN_H2.
 Proof.
   intros s a offers p Ha Hn.
-  destruct (tls_acceptor_spec s a Ha) as (_ & Hal & _). rewrite Hal in Hn.
+  destruct (tls_acceptor_spec t_ca_usable s a Ha) as (_ & Hal & _). rewrite Hal in Hn.
   apply ref_negotiate_sound in Hn. destruct Hn as [[<-|[]] _]. reflexivity.
 Qed.
+
+(* the server may complete ITS handshake for a call that is never transmitted: the handler
+   still does not run (H2NotNegotiated is decided by the client after the handshake) *)
+Lemma server_handshake_without_request :
+  let x := mkCell RightCA DomFromUri HostExample SCertExample AlpnNone false CaNone IdNone in
+  exists srv ep, cell_server x = Some srv /\ cell_endpoint x = inr ep /\
+    t_srv_handshake ep srv = SrvAccept None /\
+    t_outcome ep srv = ConnErr H2NotNegotiated /\ t_reaches ep srv = false.
+Proof. vm_compute. do 2 eexists. repeat split. Qed.
